@@ -44,6 +44,7 @@ def check(rep: Report, ctx: Ctx) -> None:
     r87(rep, ctx)
     r88(rep, ctx)
     r89(rep, ctx)
+    r810(rep, ctx)
 
 
 # --------------------------------------------------------------------------
@@ -1086,3 +1087,13 @@ def r89(rep: Report, ctx: Ctx) -> None:
             o.rule = "R8.9"
             rep.obligations.append(o)
     rep.funcs_seen |= sub.funcs_seen
+
+
+def r810(rep: Report, ctx: Ctx) -> None:
+    """(shared with C12)  "For every trace the emitted PV job contains each
+    span exactly once": a broken trace in the stream must not keep the
+    well-formed traces after it from being sequenced."""
+    rep.rule("R8.10", "every well-formed trace of the stream is sequenced: "
+             "a trace that cannot be materialised is skipped on its own", 1)
+    from .c12 import per_trace_skip
+    per_trace_skip(rep, ctx, "R8.10")
